@@ -485,6 +485,7 @@ impl<T: Copy> Buffer<T> {
         }
         s.rpos = newpos;
         s.used -= n;
+        crate::stream::note_moved(n);
         #[cfg(feature = "verif")]
         {
             s.verif.consumed += n as u64;
@@ -528,6 +529,7 @@ impl<T: Copy> Buffer<T> {
         }
         s.wpos = (s.wpos + n) % s.capacity();
         s.used += n;
+        crate::stream::note_moved(n);
         #[cfg(feature = "verif")]
         {
             s.verif.produced += n as u64;
